@@ -2354,10 +2354,11 @@ def _(E, c):
                 bits.append(x)
                 cur = BitSetV(bits)
         r = cur
-    elif isinstance(a, BitFieldV) and isinstance(b, BitFieldV):
+    elif isinstance(a, (BitFieldV, BitSetV)) and isinstance(b, (BitFieldV, BitSetV)):
         nm = E.ctx.fresh_name('bf_or')
         n = z3.Int(nm + '#card')
-        ca, cb = z3.Int(a.name + '#card'), z3.Int(b.name + '#card')
+        card = lambda x: z3.Int(x.name + '#card') if isinstance(x, BitFieldV) else len(x.bits)
+        ca, cb = card(a), card(b)
         E.ctx.assume(z3.And(n >= ca, n >= cb, n <= ca + cb))
         r = BitFieldV(nm)
     else:
@@ -2366,6 +2367,69 @@ def _(E, c):
         E.store(c.args[0], r)
         return UNIT
     return r
+
+
+@model('BitField::last', 'BitField::first')
+def _(E, c):
+    """largest / smallest set bit: an arbitrary number for a non-empty symbolic field, an error for an empty one"""
+    v = _bitset(E, c.args[0])
+    m = c.callee.idents[-1]
+    if isinstance(v, BitSetV):
+        if not v.bits:
+            return none(c.dest_ty) if type_head(c.dest_ty or '') == 'Option' else err(OpaqueV('BitFieldError'), c.dest_ty)
+        out = v.bits[0]
+        for x in v.bits[1:]:
+            out = z3.If(x > out, x, out) if m == 'last' else z3.If(x < out, x, out)
+        r = IntV(out, 'u64')
+    else:
+        if E.ctx.branch(z3.Int(v.name + '#card') == 0):
+            return none(c.dest_ty) if type_head(c.dest_ty or '') == 'Option' else err(OpaqueV('BitFieldError'), c.dest_ty)
+        r = E.materialize('u64', '%s.%s' % (v.name, m))
+    return some(r, c.dest_ty) if type_head(c.dest_ty or '') == 'Option' else ok(r, c.dest_ty)
+
+
+@model('CidGeneric::version', 'CidGeneric::codec', 'Cid::version', 'Cid::codec', 'CidGeneric::hash', 'Cid::hash')
+def _(E, c):
+    """cid prefix accessors: uninterpreted attributes of the cid"""
+    cid = cid_of(E, c.args[0])
+    m = c.callee.idents[-1]
+    nm = 'cidattr(%s)' % (cid.hkey[1] if len(cid.hkey) > 1 else 'default')
+    if m == 'version':
+        if E.ctx.branch(z3.Bool(nm + '.is_v1')):
+            return EnumV('Version', 1, 'V1', {})
+        return EnumV('Version', 0, 'V0', {})
+    if m == 'codec':
+        return E.materialize('u64', nm + '.codec')
+    return RefV(Cell(StructV('Multihash', {0: E.materialize('u64', nm + '.mh_code'), 1: E.materialize('u8', nm + '.mh_size')}), 'mh'), ())
+
+
+@model('Multihash::code', 'Multihash::size', 'MultihashGeneric::code', 'MultihashGeneric::size')
+def _(E, c):
+    v = E.deref(c.args[0])
+    if isinstance(v, StructV) and v.ty == 'Multihash':
+        return v.fields[0 if c.callee.idents[-1] == 'code' else 1]
+    return NotImplemented
+
+
+@model('RegisteredPoStProof::proof_size', 'RegisteredSealProof::proof_size')
+def _(E, c):
+    """table lookup by proof type: an arbitrary positive size per type, or an error for unknown types"""
+    v = E.deref(c.args[0])
+    if isinstance(v, LazyV):
+        v = E.materialize(v.ty, v.name)
+    tag = v.tag if isinstance(v, EnumV) else (v.v if isinstance(v, IntV) else None)
+    nm = E.ctx.fresh_name('proof_size')
+    if E.ctx.branch(z3.Bool(nm + '.known')):
+        n = E.materialize('usize', nm)
+        E.ctx.assume(z3.And(n.v >= 1, n.v <= 4096))
+        return ok(n, c.dest_ty)
+    return err(OpaqueV('String', 'unsupported proof type'), c.dest_ty)
+
+
+for _n, _v in (('FIL_COMMITMENT_SEALED', 0xf102), ('FIL_COMMITMENT_UNSEALED', 0xf101), ('POSEIDON_BLS12_381_A1_FC1', 0xb401), ('SHA2_256_TRUNC254_PADDED', 0x1012)):
+    EXTERNAL_CONSTS[_n] = IntV(_v, 'u64')
+    EXTERNAL_CONSTS['fvm_shared::commcid::' + _n] = IntV(_v, 'u64')
+    EXTERNAL_CONSTS['commcid::' + _n] = IntV(_v, 'u64')
 
 
 AS_ITER[BitSetV] = _bs_iter
